@@ -1,7 +1,9 @@
 ------------------------------- MODULE Convert -------------------------------
 (* C13 - conversions to ListOfDicts, JSON, pandas and Arrow are invertible.
    f = abstract frame, kinds[c] the column kind.  The intermediate object is observed with the
-   foreign library's own API as  inter = [nrec, fields, null[c][i], sentinel[c][i]].            *)
+   foreign library's own API as  inter = [nrec, fields, null[c][i], sentinel[c][i]];
+   kept = the same observation taken again after the intermediate object was converted back gives the same result
+   (converting back is not allowed to consume the object: it can be converted again or used otherwise).            *)
 EXTENDS Frame
 
 Boundaries == {"lod", "json", "pandas", "arrow"}
@@ -16,6 +18,7 @@ Judge(e) ==
   ELSE IF it.fields # f.cols THEN "intermediate:not-one-field-per-column-in-order:" \o b
   ELSE IF \E c \in ColSet(f) : it.null[c] # NAMask(f)[c] THEN "intermediate:null-not-exactly-at-missing-positions:" \o b
   ELSE IF \E c \in ColSet(f) : \E i \in 1..NRow(f) : it.sentinel[c][i] THEN "intermediate:missing-value-crossed-as-a-sentinel:" \o b
+  ELSE IF "kept" \in DOMAIN e /\ ~e.kept THEN "intermediate:changed-by-converting-it-back:" \o b     \* it still is one record per row, one field per column
   ELSE IF ~WellFormed(back) THEN "roundtrip:not-rectangular:" \o b
   ELSE IF back.cols # f.cols THEN "roundtrip:column-names-or-order-changed:" \o b
   ELSE IF \E c \in ColSet(f) : back.cell[c] # f.cell[c] THEN "roundtrip:values-or-missing-positions-changed:" \o b
